@@ -261,11 +261,13 @@ def run(tier, replay=None):
             cause = None
             if f["closed"] == "1":
                 # (the forced quadrature may itself stop early on an estimate below its own tolerance: F-C15-premature)
-                if min(x_, y_) < 1.0 and (good("v_quad") or abs(fl("v_quad")) <= 16e-12):
+                cz, ca_, cb_ = [float.fromhex(w) for w in by[cid].split()[5:8]]
+                # the recorded finding is about the closed form WHERE THE RECORDED SWITCH SELECTS IT (a*b > 0.002); a deviation of a closed-form
+                # value for a primitive pair the recorded rule sends to the quadrature is a different violation (round 6: MIN_EXP halved)
+                if min(x_, y_) < 1.0 and ca_ * cb_ > 0.002 and (good("v_quad") or abs(fl("v_quad")) <= 16e-12):
                     cause = "F-C12-closedform"
                 else:
                     # the |P2| < 1e-7 guard of the base integrals drops the P2-dependent terms although P2 is not zero
-                    cz, ca_, cb_ = [float.fromhex(w) for w in by[cid].split()[5:8]]
                     P2 = abs(y_ - x_) / (cz + ca_ + cb_)
                     if 0.0 < P2 < 1e-7 and good("v_quad"):
                         cause = "F-C12-p2guard"
